@@ -90,6 +90,10 @@ BOUNDED_SEARCH = {
              'single_source (fast path and with paths) and all_pairs against the minimum walk length by Floyd-Warshall')],
     'C08': [('C08.entry_points_agree_bounded', 'sp_oracle', 'src/algorithms/shortest_path/dijkstra.rs',
              'all_pairs[x][y] and single_source(x)[y] both equal the Floyd-Warshall minimum, with and without paths')],
+    'C06': [('C06.closeness_equals_the_formula_over_minimal_distances_bounded', 'closeness_oracle', 'src/algorithms/centrality/closeness.rs',
+             'closeness_centrality (both wf_improved settings) against the documented formula over Floyd-Warshall distances TO each node')],
+    'C15': [('C15.rebuilds_do_not_fail_and_match_their_definitions_bounded', 'derived_oracle', 'src/graph/convert.rs',
+             'reverse (and reverse twice), get_subgraph for every subset of the names, set_all_edge_weights, to_single_edges against edge multisets computed from the added edge list')],
     'C09': [('C09.degrees_agree_with_the_edge_list_bounded', 'counts_oracle', 'src/graph/degree.rs',
              'node / edge counts, size(false), per-node degrees and the degree map against counts over the added edge list (handshake identities follow)')],
 }
